@@ -18,6 +18,7 @@ import (
 	"sync"
 	"time"
 
+	"verif/engines/conc"
 	"verif/simkit"
 )
 
@@ -60,6 +61,12 @@ func main() {
 			traceOut = os.Args[4]
 		}
 		os.Exit(replayMain(os.Args[2], os.Args[3], traceOut))
+	case "conc-ref":
+		task := 0
+		if len(os.Args) > 2 {
+			task, _ = strconv.Atoi(os.Args[2])
+		}
+		os.Exit(conc.RefMain(os.Stdin, os.Stdout, task))
 	case "selftest-determinism":
 		os.Exit(selftestDeterminism(os.Args[2:]))
 	case "list":
